@@ -73,6 +73,7 @@ type Scenario struct {
 	SegMode   int              `json:"segmode,omitempty"`
 	Transport string           `json:"transport,omitempty"` // session: tcp (through the middlebox) | udp (concurrent clients, server with a TSIG provider that takes a scheduling point)
 	Clients   int              `json:"clients,omitempty"`
+	Provider  int              `json:"provider,omitempty"`    // tcp session: bit 0 the client, bit 1 the server is given its keys through a TsigProvider (own HMAC code) instead of a secret map
 	Async     bool             `json:"async_reply,omitempty"` // session: the handler returns at once and answers from another task a little later, through the ResponseWriter it was given
 	Burst     bool             `json:"burst,omitempty"`       // udp: every client sends all its requests before reading any reply
 	Xfer      json.RawMessage  `json:"transfer,omitempty"`    // kind transfer: a zone-transfer session with TSIG (scenario of the C15 harness)
@@ -114,6 +115,7 @@ func Gen(seed uint64, tier string) any {
 		sc.SegMode = r.IntN(3)
 		sc.ServerKey = core.Pick(r, "right", "right", "right", "right", "wrong", "none", "empty")
 		sc.Transport = core.Pick(r, "tcp", "tcp", "udp")
+		sc.Provider = core.Pick(r, 0, 0, 1, 2, 3)
 		// (datagram sessions only: there every request has a response writer of its own; on a stream the
 		// writer belongs to the connection and the server moves on to the next request when the handler returns)
 		sc.Async = sc.Transport == "udp" && core.Chance(r, 35)
@@ -977,10 +979,13 @@ func (c *sessClient) RunEvent(time.Time) {
 			}
 		}
 		cl := &dns.Client{Net: "tcp", Timeout: time.Duration(maxDelay+30) * time.Second, TsigSecret: map[string]string{keyName: secretGood}}
+		if sc.Provider&1 != 0 {
+			cl.TsigSecret, cl.TsigProvider = nil, &yieldProvider{k: k, secrets: map[string]string{keyName: secretGood}}
+		}
 		if e.Xfr {
 			// send the request, then take the two envelopes off the stream undecoded
 			// (the oracle judges them from the middlebox's record)
-			co.TsigSecret = cl.TsigSecret
+			co.TsigSecret, co.TsigProvider = cl.TsigSecret, cl.TsigProvider
 			co.SetDeadline(time.Now().Add(cl.Timeout))
 			werr := co.WriteMsg(m)
 			n := 0
@@ -1079,6 +1084,10 @@ func runSession(sc *Scenario, res *core.Result, verbose bool) {
 	case "empty":
 		// TSIG is switched on, no key is held (the last one was revoked, say): nothing can verify
 		s.srv.TsigSecret = map[string]string{}
+	}
+	if sc.Provider&2 != 0 && s.srv.TsigSecret != nil {
+		s.srv.TsigProvider, s.srv.TsigSecret = &yieldProvider{k: k, secrets: s.srv.TsigSecret}, nil
+		res.Bump("cover.server_tsig_provider")
 	}
 	start0 := time.Now()
 	k.Go("serve", sessServe{s})
